@@ -24,8 +24,13 @@ driver (entries of lean/RvModel/Hand/DispatchC05S.lean, the hand model Hand/Stic
                                 m = exp ln_m                                                 (C06, exact / 1e-12)
       rel:normalised            sum_{y<Y} pp(y|x) + prod_{i<Y} E[p_i | x] = 1 within 1e-9    (C06)
       rel:stat_counts_add       statistic of x ++ z = element-wise sum of the statistics     (C07-style, exact)
+      rel:ln_f_stat_eq_sum      StickBreakingDiscrete::ln_f_stat(statistic of x), evaluated FIRST on a fresh seeded StickSequence,
+                                = sum of ln_f(x) on ANOTHER fresh sequence of the same seed (1e-10 scaled); also for a statistic with
+                                holes / trailing zeros after forget against its remaining data       (C07)
+      rel:ln_f_stat_state_independent   ln_f_stat fresh = again = after ln_f(&ext) extended the sequence, bit for bit   (C07)
   and accepted observations (names without `rel:`; information only):
-      obs:ln_f_empty_weights_panics, obs:ln_m_both_arm_underflow, obs:trailing_zero_counts_lengthen_prefix
+      obs:ln_f_empty_weights_panics, obs:ln_m_both_arm_underflow, obs:trailing_zero_counts_lengthen_prefix,
+      obs:ln_f_stat_nan_on_empty_slot_of_zero_weight
 
 stand-alone:  python3 props/cases_c05s.py [tier] [seed] [<rvharness> <rvdrv>]
 """
@@ -89,6 +94,13 @@ def run_pair(lines):
     [t.start() for t in ts]
     [t.join() for t in ts]
     return res['i'], res['m']
+
+
+def run_impl(lines):
+    env = dict(os.environ, RVH_HANG_MS='20000')
+    out = subprocess.run([H], input='\n'.join(lines) + '\n', capture_output=True, text=True, env=env).stdout.split('\n')
+    out = out[:-1] if out and out[-1] == '' else out
+    return out + ['DIED'] * (len(lines) - len(out))
 
 
 # ------------------------------------------------------------------------------------------------------- comparison
@@ -203,7 +215,10 @@ def run(tier='quick', seed=5, harness=None, driver=None, units=None):
     rng = random.Random(seed * 7919 + 55)
     nunits = units if units is not None else UNITS.get(tier, 300)
     lines, meta = [], []
-    for _ in range(nunits):
+    # fresh seeded stick sequences: breaker alpha kept where 120 breaks do not underflow the remaining mass (see obs: probe)
+    fresh = [(rng.choice([lg(rng, 2.0, 30.0), lg(rng, 0.5, 30.0), 3.0]), rng.randrange(0, 2 ** 32)) for _ in range(nunits)]
+    brk = run_impl([f'stick.breaks - {fb(a)} {sd} 130' for a, sd in fresh])
+    for _u in range(nunits):
         alpha, pre = rprior(rng)
         xs, zs = rdata(rng), rdata(rng, 40)
         y = rng.choice([0, 1, 2, rng.randint(0, 30), (max(xs) + 1 if xs else 0), rng.randint(0, 60)])
@@ -258,9 +273,21 @@ def run(tier='quick', seed=5, harness=None, driver=None, units=None):
             f'sbstat.observe_forget - {L(cx)} {len(ops)} {" ".join(ops)}'.rstrip(),   # 25
             f'sb.f - {P} {L(ws, fb)}',                                   # 26
         ]
+        fa, fsd = fresh[_u]
+        rest = [i for i, c in enumerate(cur) for _ in range(c)]         # the data the statistic `cur` still holds
+        rng.shuffle(rest)
+        ext = rng.choice([0, len(cx), len(cx) + 1, rng.randint(0, 125)])
+        FS = f'{fb(fa)} {fsd} {brk[_u]}'
+        blk += [
+            f'sbd.ln_f_stat_fresh - {FS} {L(cx)}',                       # 27  the statistic FIRST, on a fresh sequence
+            f'sbd.sum_ln_f_fresh - {FS} {L(xs)}',                        # 28  pointwise, on another fresh sequence
+            f'sbd.ln_f_stat_fresh - {FS} {L(cur)}',                      # 29  holes / trailing zeros after forget
+            f'sbd.sum_ln_f_fresh - {FS} {L(rest)}',                      # 30
+            f'sbd.ln_f_stat_states - {FS} {L(rng.choice([cx, cur, pad]))} {ext}',   # 31
+        ]
         meta.append(dict(base=len(lines), alpha=alpha, pre=pre, xs=xs, zs=zs, y=y, cx=cx, pad=pad, Y=Y, ws=ws, bs=bs, cur=cur))
         lines += blk
-    per = 27
+    per = 32
     impl, model = run_pair(lines)
     # second stage: the implementation's posterior used as a prior
     l2, m2 = [], []
@@ -285,8 +312,10 @@ def run(tier='quick', seed=5, harness=None, driver=None, units=None):
 
     F = {k: [] for k in ('rel:empty_is_prior', 'rel:closed_form', 'rel:stat_eq_data', 'rel:seq_eq_batch', 'rel:posterior_valid',
                          'rel:bayes', 'rel:ln_m_empty', 'rel:chain_rule', 'rel:perm', 'rel:cached', 'rel:normalised',
-                         'rel:stat_counts_add', 'rel:panic_on_valid_input')}
-    worst = {'chain': 0.0, 'bayes': 0.0, 'seq': 0.0, 'norm': 0.0}
+                         'rel:stat_counts_add', 'rel:panic_on_valid_input', 'rel:ln_f_stat_eq_sum',
+                         'rel:ln_f_stat_state_independent')}
+    worst = {'chain': 0.0, 'bayes': 0.0, 'seq': 0.0, 'norm': 0.0, 'lnfstat': 0.0}
+    degenerate = 0
 
     def note(name, u, what, *vals):
         F[name].append(f'{what}: {dec(lines[u["base"]])[:400]} :: ' + ' | '.join(str(v)[:200] for v in vals))
@@ -382,6 +411,24 @@ def run(tier='quick', seed=5, harness=None, driver=None, units=None):
         if not (I[22] == stat_tok(u['cx']) and I[23] == stat_tok(add) and I[24] == stat_tok(cz) and I[25] == stat_tok(u['cur'])):
             note('rel:stat_counts_add', u, 'statistic', I[22][:120], I[23][:120], I[25][:120], 'expected', stat_tok(u['cur'])[:120])
 
+        # C07: likelihood from the statistic (fresh sequence) = sum of the pointwise log-densities (another fresh sequence)
+        for j, k2 in ((27, 28), (29, 30)):
+            a1, a2 = floats(I[j]), floats(I[k2])
+            if len(a1) != 1 or len(a2) != 1:
+                note('rel:ln_f_stat_eq_sum', u, 'outcome', lines[b + j][:300], I[j], I[k2])
+            elif not (math.isfinite(a1[0]) and math.isfinite(a2[0])):
+                degenerate += 1                                          # a realised weight rounded to 0 (see the obs: probe)
+            else:
+                e = abs(a1[0] - a2[0]) / max(1.0, abs(a2[0]))
+                worst['lnfstat'] = max(worst['lnfstat'], e)
+                if not e <= 1e-10:
+                    note('rel:ln_f_stat_eq_sum', u, 'ln_f_stat on a fresh sequence', a1[0], 'sum ln_f on a fresh sequence', a2[0],
+                         dec(lines[b + j])[:60] + ' … ' + ' '.join(lines[b + j].split()[-(len(u['cx' if j == 27 else 'cur']) + 1):]))
+        t3 = I[31].split()
+        if len(t3) != 3 or not (t3[0] == t3[1] == t3[2]):
+            note('rel:ln_f_stat_state_independent', u, 'fresh | again | after ln_f(ext)', dec(I[31]),
+                 ' '.join(lines[b + 31].split()[:4]) + ' … ' + lines[b + 31][-120:])
+
     # ---- accepted observations (targeted probes, information only) ----
     obs = {}
     up = [(1001.0, 1.0), (1000.0, 2.0)]                                  # = from_alpha(1000).posterior(Data [1])
@@ -410,16 +457,28 @@ def run(tier='quick', seed=5, harness=None, driver=None, units=None):
                 f' :: {w[1][:200]} …']
     except IndexError:
         pass
+    zb = run_impl([f'stick.breaks - {fb(0.01)} 3 70'])[0]
+    wz = [f'sbd.ln_f_stat_fresh - {fb(0.01)} 3 {zb} {L([1] + [0] * 59)}', f'sbd.sum_ln_f_fresh - {fb(0.01)} 3 {zb} {L([0])}']
+    zi, zm = run_pair(wz)
+    for ln, a, b2 in zip(wz, zi, zm):
+        if not (a == b2 or cmp_ans(a, b2)):
+            mismatches.append((ln, a, b2))
+    if zi[0] == 'xNaN' and floats(zi[1]) and math.isfinite(floats(zi[1])[0]):
+        obs['obs:ln_f_stat_nan_on_empty_slot_of_zero_weight'] = [
+            f'UnitPowerLaw(0.01) seed 3, statistic counts [1, 0 x 59] (observe(59), forget(59), observe(0)): ln_f_stat = NaN but sum ln_f = '
+            f'{floats(zi[1])[0]} — an EMPTY slot whose realised weight rounded to 0 contributes 0 * ln 0 = NaN (sbd_stat.rs:119) :: '
+            f'sbd.ln_f_stat_fresh - {fb(0.01)} 3 L70 <stick.breaks 0.01 3 70> {L([1] + [0] * 59)}']
     if wi[4] != wi[5]:
         obs['obs:trailing_zero_counts_lengthen_prefix'] = [
             f'{dec(w[4])} -> {dec(wi[4])}  but counts [1] -> {dec(wi[5])} (same distribution: Beta(alpha,1) = UnitPowerLaw(alpha); PartialEq differs)']
     findings = dict(F)
     findings.update(obs)
-    ncases = len(lines) + len(l2) + len(w)
+    ncases = len(lines) + len(l2) + len(w) + len(wz) + len(fresh) + 1
     samples = [f'{dec(lines[i])[:200]} -> impl {dec(impl[i])[:120]} model {dec(model[i])[:120]}' for i in (5, 12)] if lines else []
     return {'cases': ncases, 'units': nunits, 'mismatches': mismatches, 'findings': findings, 'samples': samples,
             'stats': {'worst_chain_rule': worst['chain'], 'worst_bayes': worst['bayes'], 'worst_seq_vs_batch': worst['seq'],
-                      'worst_normalisation': worst['norm'], 'second_stage': len(l2)}}
+                      'worst_normalisation': worst['norm'], 'worst_ln_f_stat_vs_sum': worst['lnfstat'],
+                      'ln_f_stat_degenerate_skipped': degenerate, 'second_stage': len(l2)}}
 
 
 if __name__ == '__main__':
